@@ -10,6 +10,16 @@
    (475, 474, 473, 471, 405); an accepted JOIN makes the user a member, uses up the invitation
    and is announced to every member."
 
+  Findings / oddities of the code (each with a kernel-checked instance in section 6):
+  * `join_double_error` — the quota test is made for EVERY listed channel, also when the
+       channel-level test has already refused (or the user is already a member): such a channel
+       is answered with two error lines (e.g. 471 and 405), see `join_quota`.
+  * `join_member_error` — the membership test comes LAST: a user who is already on a +k channel
+       and re-joins without the key gets 475 (similarly 474/473/471); only a member that passes
+       all four tests is ignored silently, see `join_member`.
+  * `join_duplicate` — a channel listed twice in one JOIN is accepted twice (both decisions use
+       the pre-state): it counts twice against max_joins and is announced twice.
+
   Model: `joinCheckExisting`, `joinDecide`, `joinApply`, `joinAnnounce`, `processJoin`
   (Irc/HChannel.lean).  Spec: `Spec.*` below, written over `glob` (Irc/Wildcard.lean) and list
   membership.  Helper lemmas: `Irc/Props/C07Lemmas.lean`.  All theorems are for ALL channels,
@@ -203,6 +213,18 @@ theorem line_eq (client chname : Str) :
     Refusal.tooMany.line client chname = ErrTooManyChannels405 client chname :=
   ⟨rfl, rfl, rfl, rfl, rfl⟩
 
+theorem line_take3 (e : Refusal) (c n : Str) :
+    (e.line c n).take 3 = (toString e.numeric).toList := by
+  cases e <;> rfl
+
+/-- distinct refusals have distinct reply texts (they differ within the numeric) -/
+theorem line_injective (e e' : Refusal) (c n c' n' : Str) (h : e.line c n = e'.line c' n') :
+    e = e' := by
+  have h3 := congrArg (List.take 3) h
+  rw [line_take3, line_take3] at h3
+  revert h3
+  cases e <;> cases e' <;> decide
+
 end Spec
 
 /-- the request the model's `joinCheckExisting` answers.  The model's key argument is
@@ -259,6 +281,7 @@ theorem joinCheckExisting_eq (ch : Channel) (chname : Str) (key : Option (Option
     try generalize decide (ch.users.length < l) = b4
     try generalize (k == g) = b5
     cases b1 <;> cases b2 <;> cases b3 <;> (try cases b4) <;> (try cases b5) <;> first | rfl | simp
+
 /-- **C07, decision.**  A non-member is admitted to an existing channel iff all four
     channel-level conditions hold. -/
 theorem join_existing_iff (ch : Channel) (chname : Str) (key : Option (Option Str))
@@ -358,5 +381,462 @@ theorem joinDecide_nil (cfg : Cfg) (w : World) (cn : Conn) (nick : Str) (invited
     (keys : List (Option Str)) (cnt : Nat) :
     joinDecide cfg w cn nick invitedTo [] keys cnt = ([], [], cnt) := by
   simp [joinDecide]
+
+/-- **C07, the whole decision for one listed, existing channel and a non-member**: it is joined
+    iff the four channel-level conditions hold and the user is in fewer than max_joins channels
+    (counting those accepted earlier in the same JOIN). -/
+theorem join_iff (cfg : Cfg) (w : World) (source nick client : Str) (invited : KSet)
+    (chn : Str) (key : Option Str) (cnt : Nat) (C : Channel)
+    (hC : Map.lookup chn w.channels = some C) (hnm : Map.contains nick C.users = false) :
+    (Spec.decideOne cfg w source nick client invited chn key cnt).join = true ↔
+      Spec.admit (Spec.Request.mk C chn key source invited) = .ok () ∧
+      Spec.quotaOk cfg cnt = true := by
+  simp [Spec.decideOne, Spec.chanOk, hC, hnm, Spec.admit_ok_iff_admitted]
+
+/-- a channel that does not exist yet is joined (created) iff the quota allows -/
+theorem join_new_iff (cfg : Cfg) (w : World) (source nick client : Str) (invited : KSet)
+    (chn : Str) (key : Option Str) (cnt : Nat) (hC : Map.lookup chn w.channels = none) :
+    let d := Spec.decideOne cfg w source nick client invited chn key cnt
+    (d.join = true ↔ Spec.quotaOk cfg cnt = true) ∧ d.create = true := by
+  simp [Spec.decideOne, Spec.chanOk, hC]
+
+/-- without max_joins the decision is the channel-level one -/
+theorem join_no_quota (cfg : Cfg) (w : World) (source nick client : Str) (invited : KSet)
+    (chn : Str) (key : Option Str) (cnt : Nat) (hmj : cfg.maxJoins = none) :
+    let d := Spec.decideOne cfg w source nick client invited chn key cnt
+    d.join = Spec.chanOk w source nick invited chn key ∧
+    d.errs = Spec.chanErrs w source client invited chn key := by
+  simp [Spec.decideOne, Spec.quotaOk, hmj]
+
+/-- **C07, quota.**  With `max_joins = mj`: a listed channel is joined iff the channel-level
+    verdict is positive AND the running count is below `mj`; the replies are the channel-level
+    one (if any) followed by 405 iff the count has reached `mj` — i.e. 405 is emitted whenever
+    the quota is exhausted, also for a channel that was already refused (then TWO error lines
+    are sent for it) or of which the user is already a member. -/
+theorem join_quota (cfg : Cfg) (w : World) (source nick client : Str) (invited : KSet)
+    (chn : Str) (key : Option Str) (cnt mj : Nat) (hmj : cfg.maxJoins = some mj) :
+    let d := Spec.decideOne cfg w source nick client invited chn key cnt
+    (d.join = true ↔ Spec.chanOk w source nick invited chn key = true ∧ cnt < mj) ∧
+    d.errs = Spec.chanErrs w source client invited chn key ++
+      (if mj ≤ cnt then [Spec.Refusal.tooMany.line client chn] else []) ∧
+    (Spec.Refusal.tooMany.line client chn ∈ d.errs ↔ mj ≤ cnt) := by
+  have herrs : ∀ e ∈ Spec.chanErrs w source client invited chn key,
+      e ≠ Spec.Refusal.tooMany.line client chn := by
+    intro e he
+    unfold Spec.chanErrs at he
+    split at he
+    · cases he
+    · split at he
+      · cases he
+      · rename_i r hr
+        simp only [List.mem_singleton] at he
+        subst he
+        intro h
+        have := Spec.line_injective _ _ _ _ _ _ h
+        subst this
+        exact Spec.admit_ne_tooMany _ hr
+  simp only [Spec.decideOne, Spec.quotaOk, hmj]
+  by_cases hc : cnt < mj
+  · have : ¬ mj ≤ cnt := Nat.not_le.mpr hc
+    simp only [hc, this, decide_true, Bool.and_true, and_true, ↓reduceIte, List.append_nil, iff_false, true_and]
+    exact fun hmem => herrs _ hmem rfl
+  · have : mj ≤ cnt := Nat.le_of_not_lt hc
+    simp [hc, this]
+
+theorem joinDecide_length (cfg : Cfg) (w : World) (cn : Conn) (nick : Str) (invitedTo : KSet)
+    (chans : List Str) (keys : List (Option Str)) (cnt : Nat) :
+    (joinDecide cfg w cn nick invitedTo chans keys cnt).1.length = chans.length := by
+  induction chans generalizing keys cnt with
+  | nil => simp [joinDecide]
+  | cons chn rest ih => rw [joinDecide_cons]; simp [ih]
+
+/-- the final count = the initial count + the number of accepted channels -/
+theorem joinDecide_final (cfg : Cfg) (w : World) (cn : Conn) (nick : Str) (invitedTo : KSet)
+    (chans : List Str) (keys : List (Option Str)) (cnt : Nat) :
+    (joinDecide cfg w cn nick invitedTo chans keys cnt).2.2 =
+      cnt + ((joinDecide cfg w cn nick invitedTo chans keys cnt).1.filter (·.1)).length := by
+  induction chans generalizing keys cnt with
+  | nil => simp [joinDecide]
+  | cons chn rest ih =>
+    rw [joinDecide_cons]
+    simp only
+    rw [ih]
+    cases (Spec.decideOne cfg w cn.source nick cn.clientName invitedTo chn keys.head?.join cnt).join
+    · simp
+    · simp; omega
+
+/-- with `max_joins = mj` the count never passes `mj` (unless it was already above) -/
+theorem joinDecide_final_le (cfg : Cfg) (w : World) (cn : Conn) (nick : Str) (invitedTo : KSet)
+    (chans : List Str) (keys : List (Option Str)) (cnt mj : Nat) (hmj : cfg.maxJoins = some mj) :
+    (joinDecide cfg w cn nick invitedTo chans keys cnt).2.2 ≤ max cnt mj := by
+  induction chans generalizing keys cnt with
+  | nil => simp [joinDecide]; omega
+  | cons chn rest ih =>
+    rw [joinDecide_cons]
+    simp only
+    have hq := (join_quota cfg w cn.source nick cn.clientName invitedTo chn keys.head?.join cnt mj hmj).1
+    cases hj : (Spec.decideOne cfg w cn.source nick cn.clientName invitedTo chn keys.head?.join cnt).join
+    · simpa using ih keys.tail cnt
+    · have hlt := (hq.mp hj).2
+      have := ih keys.tail (cnt + 1)
+      simp only [↓reduceIte]
+      omega
+
+/-- every error line of the first loop is one of the five refusals of a listed channel -/
+theorem joinDecide_errs (cfg : Cfg) (w : World) (cn : Conn) (nick : Str) (invitedTo : KSet)
+    (chans : List Str) (keys : List (Option Str)) (cnt : Nat) :
+    ∀ e ∈ (joinDecide cfg w cn nick invitedTo chans keys cnt).2.1,
+      ∃ r chn, chn ∈ chans ∧ e = Spec.Refusal.line r cn.clientName chn := by
+  induction chans generalizing keys cnt with
+  | nil => simp [joinDecide]
+  | cons chn rest ih =>
+    rw [joinDecide_cons]
+    simp only [List.mem_append]
+    rintro e (he | he)
+    · refine (?_ : ∃ r, e = Spec.Refusal.line r cn.clientName chn).elim
+        (fun r hr => ⟨r, chn, List.mem_cons_self, hr⟩)
+      simp only [Spec.decideOne, Spec.chanErrs, List.mem_append] at he
+      rcases he with he | he
+      · split at he
+        · cases he
+        · split at he
+          · cases he
+          · rename_i r _; exact ⟨r, by simpa using he⟩
+      · split at he
+        · cases he
+        · exact ⟨.tooMany, by simpa using he⟩
+    · obtain ⟨r, c', hc', hr⟩ := ih _ _ e he
+      exact ⟨r, c', List.mem_cons_of_mem _ hc', hr⟩
+
+
+/-! ## 4. a refused JOIN changes nothing -/
+
+theorem join_refused_changes_nothing (cfg : Cfg) (c : Nat) (nick : Str) (ds : List (Bool × Bool))
+    (chans : List Str) (w : World) (x : Ctx) (h : ∀ d ∈ ds, d.1 = false) :
+    joinApply nick ds chans w = w ∧ joinAnnounce cfg c nick ds chans x = x :=
+  ⟨joinApply_refused nick ds chans w h, joinAnnounce_refused cfg c nick ds chans x h⟩
+
+theorem srvLine_eq (cfg : Cfg) (e : Str) : srvLine cfg e = str ":" ++ cfg.name ++ str " " ++ e := by
+  simp [srvLine, str]
+
+theorem processJoin_all_refused (cfg : Cfg) (c : Nat) (chans : List Str) (keys : Option (List Str))
+    (x : Ctx) (nick : Str) (user : User)
+    (hn : (x.conn c).nick = some nick) (hu : Map.lookup nick x.w.users = some user)
+    (hall : ∀ d ∈ (joinDecide cfg x.w (x.conn c) nick user.invitedTo chans (keyList keys)
+                    user.channels.length).1, d.1 = false) :
+    let errs := (joinDecide cfg x.w (x.conn c) nick user.invitedTo chans (keyList keys)
+                    user.channels.length).2.1
+    let y := processJoin cfg c chans keys x
+    y.w = x.w ∧ y.queued = x.queued ∧ y.direct = x.direct ++ errs.map (srvLine cfg) ∧
+    (∀ e ∈ errs, ∃ r chn, chn ∈ chans ∧ e = Spec.Refusal.line r (x.conn c).clientName chn) := by
+  intro errs y
+  have h := processJoin_refused cfg c chans keys x nick user hn hu hall
+  refine ⟨?_, ?_, ?_, joinDecide_errs _ _ _ _ _ _ _ _⟩ <;> simp only [y, h, errs]
+
+theorem processJoin_single_refused (cfg : Cfg) (c : Nat) (chn : Str) (keys : Option (List Str))
+    (x : Ctx) (nick : Str) (user : User) (C : Channel) (e : Spec.Refusal)
+    (hn : (x.conn c).nick = some nick) (hu : Map.lookup nick x.w.users = some user)
+    (hC : Map.lookup chn x.w.channels = some C)
+    (href : Spec.admit (Spec.Request.mk C chn (keyList keys).head?.join (x.conn c).source
+              user.invitedTo) = .error e) :
+    let y := processJoin cfg c [chn] keys x
+    y.w = x.w ∧ y.queued = x.queued ∧
+    y.direct = x.direct ++ srvLine cfg (e.line (x.conn c).clientName chn) ::
+      (if Spec.quotaOk cfg user.channels.length then []
+       else [srvLine cfg (Spec.Refusal.tooMany.line (x.conn c).clientName chn)]) := by
+  have hadm : Spec.admitted (Spec.Request.mk C chn (keyList keys).head?.join (x.conn c).source
+      user.invitedTo) = false := by
+    cases h : Spec.admitted _ with
+    | false => rfl
+    | true => rw [(Spec.admit_ok_iff_admitted _).mpr h] at href; cases href
+  have hd : joinDecide cfg x.w (x.conn c) nick user.invitedTo [chn] (keyList keys)
+      user.channels.length =
+      ([(false, false)], e.line (x.conn c).clientName chn ::
+        (if Spec.quotaOk cfg user.channels.length then []
+         else [Spec.Refusal.tooMany.line (x.conn c).clientName chn]), user.channels.length) := by
+    rw [joinDecide_cons]
+    simp only [joinDecide_nil]
+    simp [Spec.decideOne, Spec.chanOk, Spec.chanErrs, hC, href, hadm]
+  have h := processJoin_refused cfg c [chn] keys x nick user hn hu (by rw [hd]; simp)
+  rw [hd] at h
+  intro y
+  simp only [y, h, true_and]
+  split <;> simp
+
+
+/-! ## 5. an accepted JOIN -/
+
+/-- the JOIN line as the clients see it -/
+def joinLine (source chn : Str) : Str := str ":" ++ source ++ str " JOIN " ++ chn
+
+theorem joinLine_eq (source chn : Str) :
+    joinLine source chn = ':' :: (source ++ ' ' :: (str "JOIN " ++ chn)) := by
+  simp [joinLine, str]
+
+/-- **C07, accepted JOIN, state.**  The insert loop on one accepted existing channel. -/
+theorem join_accept_effect (nick chn : Str) (w : World) (C : Channel) (u : User)
+    (hu : Map.lookup nick w.users = some u) (hC : Map.lookup chn w.channels = some C) :
+    let w' := joinApply nick [(true, false)] [chn] w
+    Map.lookup chn w'.channels = some (C.addUser nick) ∧
+    Map.lookup nick w'.users = some (userJoined chn u) ∧
+    (∀ n, n ≠ nick → Map.lookup n w'.users = Map.lookup n w.users) ∧
+    (∀ c', c' ≠ chn → Map.lookup c' w'.channels = Map.lookup c' w.channels) ∧
+    w'.conns = w.conns ∧ w'.panicked = w.panicked ∧ w'.wallops = w.wallops ∧
+    w'.invisibleCount = w.invisibleCount ∧ w'.operatorsCount = w.operatorsCount := by
+  intro w'
+  have hw : w' = _ := joinApply_single nick chn w C hC
+  rw [hw]
+  refine ⟨by simp, by simp [Map.lookup_modify, hu], fun n hn => ?_, fun c' hc => ?_,
+    rfl, rfl, rfl, rfl, rfl⟩
+  · simp [Map.lookup_modify, Ne.symm hn]
+  · simp [Map.lookup_insert_ne _ _ _ _ (Ne.symm hc)]
+
+/-- the updated channel: the joiner is a member with exactly the configured default ranks, the
+    rank lists follow, everyone else and all other settings are unchanged. -/
+theorem addUser_effect (C : Channel) (nick : Str) :
+    let C' := C.addUser nick
+    Map.contains nick C'.users = true ∧
+    (∃ m, Map.lookup nick C'.users = some m ∧
+      (m.founder = true ↔ nick ∈ C.defaultModes.founders) ∧
+      (m.prot = true ↔ nick ∈ C.defaultModes.protecteds) ∧
+      (m.operator = true ↔ nick ∈ C.defaultModes.operators) ∧
+      (m.halfOper = true ↔ nick ∈ C.defaultModes.halfOperators) ∧
+      (m.voice = true ↔ nick ∈ C.defaultModes.voices)) ∧
+    (∀ n, n ≠ nick → Map.lookup n C'.users = Map.lookup n C.users) ∧
+    (Map.lookup nick C.users = none → Map.keys C'.users = Map.keys C.users ++ [nick]) ∧
+    C'.topic = C.topic ∧ C'.modes.key = C.modes.key ∧ C'.modes.ban = C.modes.ban ∧
+    C'.modes.inviteOnly = C.modes.inviteOnly ∧ C'.modes.clientLimit = C.modes.clientLimit := by
+  intro C'
+  refine ⟨?_, ⟨defaultRanks C nick, addUser_lookup_self C nick, ?_⟩,
+    fun n hn => addUser_lookup_other C nick n hn, fun h => ?_, rfl, rfl, rfl, rfl, rfl⟩
+  · rw [Map.contains_iff]; exact ⟨_, addUser_lookup_self C nick⟩
+  · simp only [defaultRanks, KSet.mem_iff, and_self]
+  · simp only [C', addUser_users]; exact keys_insert_of_lookup_none _ _ _ h
+
+/-- the updated user record: in the channel, invitation used up, nothing else touched -/
+theorem userJoined_effect (chn : Str) (u : User) :
+    let u' := userJoined chn u
+    chn ∈ u'.channels ∧ chn ∉ u'.invitedTo ∧
+    (∀ c', c' ≠ chn → (c' ∈ u'.channels ↔ c' ∈ u.channels) ∧ (c' ∈ u'.invitedTo ↔ c' ∈ u.invitedTo)) ∧
+    u'.owner = u.owner ∧ u'.source = u.source ∧ u'.modes = u.modes ∧ u'.away = u.away := by
+  intro u'
+  refine ⟨?_, ?_, fun c' hc => ?_, rfl, rfl, rfl, rfl⟩ <;>
+    simp [← KSet.mem_iff, u', userJoined, KSet.mem_insert, KSet.mem_erase, *]
+
+
+/-- **C07, accepted JOIN, announcement.**  The message loop on one accepted channel `C'`
+    (the channel AFTER the insert), all of whose members are registered users: the JOIN line
+    goes directly to the joiner, followed by the topic (if set) and the NAMES reply, and is
+    queued once per entry of the member list for every member other than the joiner; the
+    world is not changed. -/
+theorem join_accept_announce (cfg : Cfg) (c : Nat) (nick chn : Str) (cr : Bool) (x : Ctx)
+    (C' : Channel) (hC : Map.lookup chn x.w.channels = some C')
+    (hmem : ∀ n ∈ Map.keys C'.users, Map.contains n x.w.users = true) :
+    let y := joinAnnounce cfg c nick [(true, cr)] [chn] x
+    let line := joinLine (x.conn c).source chn
+    y.w = x.w ∧
+    y.direct = x.direct ++ line ::
+      ((match C'.topic with
+        | some t => [srvLine cfg (RplTopic332 (x.conn c).clientName chn t.topic)]
+        | none => []) ++
+       (sendNamesFromChannel cfg c chn C' true { w := x.w }).direct) ∧
+    y.queued = x.queued ++
+      ((Map.keys C'.users).filter (· != nick)).map (fun n => (ownerOf x.w.users n, line)) := by
+  intro y line
+  have hy : y = _ := joinAnnounce_single cfg c nick chn cr x C' hC hmem
+  have hl : line = _ := joinLine_eq _ _
+  rw [hy, hl]
+  exact ⟨rfl, rfl, rfl⟩
+
+/-- **C07, accepted JOIN, end to end** (one listed channel, which exists; the joiner is not a
+    member, passes the four conditions and the quota; all members are registered users). -/
+theorem processJoin_single_accepted (cfg : Cfg) (c : Nat) (chn : Str) (keys : Option (List Str))
+    (x : Ctx) (nick : Str) (user : User) (C : Channel)
+    (hn : (x.conn c).nick = some nick) (hu : Map.lookup nick x.w.users = some user)
+    (hC : Map.lookup chn x.w.channels = some C)
+    (hnm : Map.contains nick C.users = false)
+    (hadm : Spec.admit (Spec.Request.mk C chn (keyList keys).head?.join (x.conn c).source
+              user.invitedTo) = .ok ())
+    (hq : Spec.quotaOk cfg user.channels.length = true)
+    (hmem : ∀ n ∈ Map.keys C.users, Map.contains n x.w.users = true) :
+    let y := processJoin cfg c [chn] keys x
+    let line := joinLine (x.conn c).source chn
+    y.w = { x.w with users := Map.modify nick (userJoined chn) x.w.users
+                     channels := Map.insert chn (C.addUser nick) x.w.channels } ∧
+    y.direct = x.direct ++ line ::
+      ((match C.topic with
+        | some t => [srvLine cfg (RplTopic332 (x.conn c).clientName chn t.topic)]
+        | none => []) ++
+       (sendNamesFromChannel cfg c chn (C.addUser nick) true { w := y.w }).direct) ∧
+    y.queued = x.queued ++ (Map.keys C.users).map (fun n => (ownerOf x.w.users n, line)) := by
+  have hadm' := (Spec.admit_ok_iff_admitted _).mp hadm
+  have hd : joinDecide cfg x.w (x.conn c) nick user.invitedTo [chn] (keyList keys)
+      user.channels.length = ([(true, false)], [], user.channels.length + 1) := by
+    rw [joinDecide_cons]
+    simp only [joinDecide_nil]
+    simp [Spec.decideOne, Spec.chanOk, Spec.chanErrs, hC, hadm, hadm', hnm, hq]
+  have hnone : Map.lookup nick C.users = none := (Map.contains_false_iff _ _).mp hnm
+  have hnk : nick ∉ Map.keys C.users := fun h => by
+    obtain ⟨v, hv⟩ := (Map.mem_keys_iff _ _).mp h
+    rw [hnone] at hv; cases hv
+  have hkeys : Map.keys (C.addUser nick).users = Map.keys C.users ++ [nick] := by
+    rw [addUser_users]; exact keys_insert_of_lookup_none _ _ _ hnone
+  intro y line
+  have hy : y = _ := processJoin_eq cfg c [chn] keys x nick user hn hu
+  rw [hd] at hy
+  simp only [List.foldl_nil, Ctx.modifyW, joinApply_single nick chn x.w C hC] at hy
+  rw [joinAnnounce_single cfg c nick chn false _ (C.addUser nick) (by simp) ?hm] at hy
+  case hm =>
+    intro n hn'
+    simp only [contains_modify]
+    rw [hkeys, List.mem_append, List.mem_singleton] at hn'
+    rcases hn' with h | rfl
+    · exact hmem n h
+    · exact (Map.contains_iff _ _).mpr ⟨_, hu⟩
+  have hfl : (Map.keys (C.addUser nick).users).filter (· != nick) = Map.keys C.users := by
+    rw [hkeys, List.filter_append, filter_ne_of_not_mem _ _ hnk]; simp
+  rw [hy]
+  refine ⟨rfl, ?_, ?_⟩
+  · simp only [line, joinLine_eq, addUser_frame]
+    rfl
+  · simp only [hfl, ownerOf_modify, line, joinLine_eq]
+    rfl
+
+/-! ## 6. concrete instances (kernel-checked by `decide`) -/
+
+namespace Ex
+def bobSrc : Str := str "bob!~b@host.org"
+/-- +k "sesame" -/
+def chKey : Channel := { modes := { key := some (str "sesame") }, users := [(str "al", {})] }
+/-- +b *!*@*.org, +e bob!*@* -/
+def chBanEx : Channel :=
+  { modes := { ban := [str "*!*@*.org"], exception := [str "bob!*@*"] }, users := [(str "al", {})] }
+def chBan : Channel := { modes := { ban := [str "*!*@*.org"] }, users := [(str "al", {})] }
+/-- +i -/
+def chInv : Channel := { modes := { inviteOnly := true }, users := [(str "al", {})] }
+/-- +l 1, one member -/
+def chFull : Channel := { modes := { clientLimit := some 1 }, users := [(str "al", {})] }
+
+-- wrong key -> 475
+example : joinCheckExisting chKey (str "#c") (some (some (str "wrong"))) bobSrc (str "bob") (str "bob") []
+    = (false, [str "475 bob #c :Cannot join channel (+k)"]) := by decide
+-- no key -> 475
+example : joinCheckExisting chKey (str "#c") none bobSrc (str "bob") (str "bob") []
+    = (false, [str "475 bob #c :Cannot join channel (+k)"]) := by decide
+-- right key -> admitted
+example : joinCheckExisting chKey (str "#c") (some (some (str "sesame"))) bobSrc (str "bob") (str "bob") []
+    = (true, []) := by decide
+-- banned -> 474
+example : joinCheckExisting chBan (str "#c") none bobSrc (str "bob") (str "bob") []
+    = (false, [str "474 bob #c :Cannot join channel (+b)"]) := by decide
+-- banned but excepted -> admitted
+example : joinCheckExisting chBanEx (str "#c") none bobSrc (str "bob") (str "bob") []
+    = (true, []) := by decide
+-- invite-only without invitation -> 473
+example : joinCheckExisting chInv (str "#c") none bobSrc (str "bob") (str "bob") [str "#other"]
+    = (false, [str "473 bob #c :Cannot join channel (+i)"]) := by decide
+-- invite-only with invitation -> admitted
+example : joinCheckExisting chInv (str "#c") none bobSrc (str "bob") (str "bob") [str "#c"]
+    = (true, []) := by decide
+-- full -> 471
+example : joinCheckExisting chFull (str "#c") none bobSrc (str "bob") (str "bob") []
+    = (false, [str "471 bob #c :Cannot join channel (+l)"]) := by decide
+-- the spec gives the same verdicts
+example : Spec.admit (req chKey (str "#c") (some (some (str "wrong"))) bobSrc []) = .error .badKey := by decide
+example : Spec.admit (req chBanEx (str "#c") none bobSrc []) = .ok () := by decide
+example : Spec.admit (req chInv (str "#c") none bobSrc [str "#c"]) = .ok () := by decide
+example : Spec.admit (req chFull (str "#c") none bobSrc []) = .error .full := by decide
+-- a member that fails the key test still gets 475; one that passes is refused silently
+example : joinCheckExisting chKey (str "#c") none (str "al!~a@h") (str "al") (str "al") []
+    = (false, [str "475 al #c :Cannot join channel (+k)"]) := by decide
+example : joinCheckExisting chKey (str "#c") (some (some (str "sesame"))) (str "al!~a@h") (str "al") (str "al") []
+    = (false, []) := by decide
+
+def bob : User :=
+  { hostname := str "host.org", name := str "b", realname := str "Bob", source := bobSrc, modes := {},
+    history := { username := str "b", hostname := str "host.org", realname := str "Bob" }, owner := 1,
+    channels := [str "#x"] }
+def al : User :=
+  { hostname := str "h", name := str "a", realname := str "Al", source := str "al!~a@h", modes := {},
+    history := { username := str "a", hostname := str "h", realname := str "Al" }, owner := 2,
+    channels := [str "#k", str "#f"] }
+def w0 : World :=
+  { users := [(str "bob", bob), (str "al", al)]
+    channels := [(str "#k", chKey), (str "#f", chFull)]
+    conns := [{ id := 1, hostname := str "host.org", nick := some (str "bob"), name := some (str "b"),
+                source := bobSrc, registered := true, authenticated := true },
+              { id := 2, hostname := str "h", nick := some (str "al"), name := some (str "a"),
+                source := str "al!~a@h", registered := true, authenticated := true }] }
+def x0 : Ctx := { w := w0 }
+def cfg1 : Cfg := { maxJoins := some 1 }
+
+-- JOIN #k,#f sesame  with max_joins = 1 and bob already in one channel:
+example : joinDecide cfg1 w0 (x0.conn 1) (str "bob") [] [str "#k", str "#f", str "#new"]
+    [some (str "sesame")] 1 =
+    ([(false, false), (false, false), (false, true)],
+     [str "405 bob #k :You have joined too many channels",
+      str "471 bob #f :Cannot join channel (+l)",
+      str "405 bob #f :You have joined too many channels",
+      str "405 bob #new :You have joined too many channels"], 1) := by decide
+
+-- without max_joins: #k accepted (key at position 0), #f refused (no key needed, full), #new created
+example : joinDecide {} w0 (x0.conn 1) (str "bob") [] [str "#k", str "#f", str "#new"]
+    [some (str "sesame")] 1 =
+    ([(true, false), (false, false), (true, true)],
+     [str "471 bob #f :Cannot join channel (+l)"], 3) := by decide
+
+-- processJoin, all refused
+example : (processJoin {} 1 [str "#k", str "#f"] none x0).direct =
+    [str ":irc.irc 475 bob #k :Cannot join channel (+k)",
+     str ":irc.irc 471 bob #f :Cannot join channel (+l)"] := by decide
+example : (processJoin {} 1 [str "#k", str "#f"] none x0).queued = [] := by decide
+example : (processJoin {} 1 [str "#k", str "#f"] none x0).w.channels = w0.channels := by decide
+example : (processJoin {} 1 [str "#k", str "#f"] none x0).w.users = w0.users := by decide
+
+-- hypotheses of `processJoin_all_refused` / `processJoin_single_refused` are satisfiable
+example : (x0.conn 1).nick = some (str "bob") ∧ Map.lookup (str "bob") x0.w.users = some bob ∧
+    (∀ d ∈ (joinDecide {} x0.w (x0.conn 1) (str "bob") bob.invitedTo [str "#k", str "#f"]
+              (keyList none) bob.channels.length).1, d.1 = false) ∧
+    Map.lookup (str "#k") x0.w.channels = some chKey ∧
+    Spec.admit (Spec.Request.mk chKey (str "#k") (keyList none).head?.join (x0.conn 1).source
+      bob.invitedTo) = .error .badKey := by decide
+
+-- an accepted JOIN: `JOIN #k sesame`
+example : (processJoin {} 1 [str "#k"] (some [str "sesame"]) x0).direct =
+    [str ":bob!~b@host.org JOIN #k",
+     str ":irc.irc 353 bob = #k :al bob",
+     str ":irc.irc 366 bob #k :End of /NAMES list"] := by decide
+example : (processJoin {} 1 [str "#k"] (some [str "sesame"]) x0).queued =
+    [(2, str ":bob!~b@host.org JOIN #k")] := by decide
+example : Map.lookup (str "#k") (processJoin {} 1 [str "#k"] (some [str "sesame"]) x0).w.channels =
+    some { chKey with users := [(str "al", {}), (str "bob", {})] } := by decide
+example : Map.lookup (str "bob") (processJoin {} 1 [str "#k"] (some [str "sesame"]) x0).w.users =
+    some { bob with channels := [str "#x", str "#k"] } := by decide
+-- hypotheses of `processJoin_single_accepted` are satisfiable
+example : Map.contains (str "bob") chKey.users = false ∧
+    Spec.admit (Spec.Request.mk chKey (str "#k") (keyList (some [str "sesame"])).head?.join
+      (x0.conn 1).source bob.invitedTo) = .ok () ∧
+    Spec.quotaOk {} bob.channels.length = true ∧
+    (∀ n ∈ Map.keys chKey.users, Map.contains n x0.w.users = true) := by decide
+-- multi-channel JOIN with per-channel keys: `JOIN #f,#k x,sesame` (key list position matters)
+example : (joinDecide {} w0 (x0.conn 1) (str "bob") [] [str "#f", str "#k"]
+    [some (str "x"), some (str "sesame")] 1).1 = [(false, false), (true, false)] := by decide
+example : (joinDecide {} w0 (x0.conn 1) (str "bob") [] [str "#k", str "#f"]
+    [some (str "x"), some (str "sesame")] 1).2.1 =
+    [str "475 bob #k :Cannot join channel (+k)", str "471 bob #f :Cannot join channel (+l)"] := by
+  decide
+
+/-! ### finding `join_duplicate`: a channel listed twice in one JOIN is decided twice against the
+    same pre-state, so it is accepted twice: it counts twice against max_joins (here the third,
+    different channel is refused with 405 although bob is then in only 2 < 3 = max_joins channels), and
+    the JOIN line / NAMES reply are sent twice. -/
+def cfg3 : Cfg := { maxJoins := some 3 }
+example : joinDecide cfg3 w0 (x0.conn 1) (str "bob") [] [str "#k", str "#k", str "#new"]
+    [some (str "sesame"), some (str "sesame"), some []] 1 =
+    ([(true, false), (true, false), (false, true)],
+     [str "405 bob #new :You have joined too many channels"], 3) := by decide
+example : (processJoin {} 1 [str "#k", str "#k"] (some [str "sesame", str "sesame"]) x0).queued =
+    [(2, str ":bob!~b@host.org JOIN #k"), (2, str ":bob!~b@host.org JOIN #k")] := by decide
+end Ex
 
 end Irc.C07
